@@ -45,6 +45,45 @@ scanner! {
 
 pub const ERROR_TOKEN_TYPE: u16 = 31;
 
+// The same alphabet without the catch-all error token (a scanner state with %allow_unmatched):
+// characters no rule matches become gaps.
+scanner! {
+    AlphaAuScanner {
+        mode INITIAL {
+            token r"\r\n|\r|\n" => 1;
+            token r"[\s--\r\n]+" => 2;
+            token r"//.*(\r\n|\r|\n)?" => 3;
+            token r"/\*/?([^/]|[^*]/)*\*/" => 4;
+            token r"a" => 5;
+            token r"b" => 6;
+            token r"c" => 7;
+            token r"d" => 8;
+            token r"e" => 9;
+            token r"f" => 10;
+            token r"g" => 11;
+            token r"h" => 12;
+            token r"i" => 13;
+            token r"j" => 14;
+            token r"k" => 15;
+            token r"l" => 16;
+            token r"m" => 17;
+            token r"n" => 18;
+            token r"o" => 19;
+            token r"p" => 20;
+            token r"q" => 21;
+            token r"r" => 22;
+            token r"s" => 23;
+            token r"t" => 24;
+            token r"u" => 25;
+            token r"v" => 26;
+            token r"w" => 27;
+            token r"x" => 28;
+            token r"y" => 29;
+            token r"z" => 30;
+        }
+    }
+}
+
 pub type MatchFn = fn(char) -> Option<usize>;
 
 /// Letter for a terminal index (5..=30), `$`-free.
@@ -67,4 +106,22 @@ pub fn stream<'t>(
     let scanner = AlphaScanner::new();
     static MF: MatchFn = AlphaScanner::match_function;
     TokenStream::new_with_skip_tokens(input, "input", scanner.scanner_impl.clone(), &MF, k, skip).unwrap()
+}
+
+pub fn stream_au<'t>(
+    input: &'t str,
+    k: usize,
+    skip: &'static [&'static [u16]],
+) -> TokenStream<'t, MatchFn> {
+    use alpha_au_scanner::AlphaAuScanner;
+    let scanner = AlphaAuScanner::new();
+    static MF: MatchFn = AlphaAuScanner::match_function;
+    TokenStream::new_with_skip_tokens(input, "input", scanner.scanner_impl.clone(), &MF, k, skip).unwrap()
+}
+
+/// Raw scanner matches (type, start, end) of the allow-unmatched alphabet scanner.
+pub fn matches_au(input: &str) -> Vec<(usize, usize, usize)> {
+    use alpha_au_scanner::AlphaAuScanner;
+    let scanner = AlphaAuScanner::new();
+    scanner.find_matches(input, 0).map(|m| (m.token_type, m.span.start, m.span.end)).collect()
 }
